@@ -19,7 +19,7 @@ from . import common
 
 NAME = "U-frame"
 TOOL = "verus"
-PROPS = ["C12", "C14", "C16", "C02", "C18", "C03", "C06", "C08"]
+PROPS = ["C12", "C14", "C16", "C02", "C18", "C03", "C06", "C08", "C09"]
 RLIMIT = 10
 TRUSTED = ["verus 0.2026.09.13 + z3 (the assertions are literal)", "a field of self is written only by code that names it: scan of the function's text and of the helpers it calls in the same impl"]
 
@@ -59,12 +59,14 @@ FRAMES = [
 REQUIRED = [
     ("src/assemble.rs", "AssemblyCode", "optimize", r"Some\(AsmLine::Label\(_\)\)\s*\|\s*Some\(AsmLine::Inline\(_, _\)\)\s*=>\s*\{[^}]*?restart", "C02,C18", "inline-assembly-restarts-the-optimizer-like-a-label",
      "in optimize(), the arm that restarts the scan (and forgets the registers) at a label is also taken at an inline assembly line"),
+    ("src/compile.rs", "CompilerState", "parse_identifier", r"let (\w+) = self\.parse_expr_ex\([^;]*;(?:(?!Box::new).)*?if !\1\.1\.is_empty\(\) \{\s*return Err", "C09,C16", "subscript-literals-are-not-dropped",
+     "in parse_identifier(), the literals collected by the subscript expression are not thrown away silently (their names would be taken by the next literals of the program): a subscript with a literal is rejected"),
 ]
 
 
 def candidates(f):
     """texts that made the compiler panic: each must be answered by output or by a located error"""
-    return [{"source": src, "args": ["-O1"], "expect": {"panic": False}, "note": note} for src, note in (
+    out = [{"source": src, "args": ["-O1"], "expect": {"panic": False}, "note": note} for src, note in (
         ("char *p;\nvoid main() { p = @7@; }\n", "a literal marker written in the source"), ("char *p;\nvoid main() { p = @-1@; }\n", "a negative literal marker"),
         ("#define 123\nvoid main() { }\n", "#define without a name"), ("#define\nvoid main() { }\n", "#define alone"),
         ("unsigned char i;\nvoid main() { asm(\"nop\", -1); if (i) i = 1; }\n", "negative size of inline assembly before a branch"),
@@ -81,6 +83,9 @@ def candidates(f):
         ("char x;\nvoid main() {\n  x = 1; }\n", "--insert-code: statement on the last line"), ("char x; void main() { x='\u20ac';x='\u20ac';\n}\n", "--insert-code: multi-byte character"),
         ("char x,xx,xxx; void main() {\n" + "x=1;" * 61 + "xxx='\u00e9';" + "x=2;" * 10 + "\nx=3;\nx=4;\n}\n", "--insert-code: long line cut inside a character"))] + [
         {"source": "char x; void main() { x = 1; }\n", "args": ["-O0", "-D", opt], "expect": {"panic": False}, "note": "-D %s" % opt} for opt in ("A(=1", "A[=1")]
+    out.append({"source": "char t[4]; char c; char *s; char f(char *p) { return 0; }\nvoid main() { c = t[f(\"a\")]; s = \"zz\"; }\n", "args": ["-O0"], "expect": {"panic": False, "is_error": True},
+                "note": "a literal in a subscript, then another literal: f must not receive the text of the second"})
+    return out
 
 
 def build(repo):
